@@ -218,7 +218,7 @@ Theorem C12_refuted_empty_cnf :
   exists raw n d, load_cnf always raw n = Some d /\ (forall s : asg, cs_sat s raw = true) /\
     save_cnf d = AErr E5_no_save /\
     snd (clause_update false always d None [[1]] []) = AErr E5_no_clauses /\
-    snd (clause_update false always d (Some 3) [] []) = APanic.
+    snd (clause_update false always d (Some 3) [] []) = AErr E5_no_clauses.
 Proof. exact refuted_empty_cnf. Qed.
 Print Assumptions C12_refuted_empty_cnf.
 
